@@ -29,7 +29,9 @@ MINT       == "MINT"       \* the fiat-token-factory minting denom, spelled exac
 \* every symbol that denotes a syntactically valid bech32 account address
 \* ("s8": a valid address of 8 bytes, "l33": one of 33 bytes; where the module pads an address into 32 bytes it
 \* copies at most 20 bytes to offset 12, so their padded forms are 8 bytes + zeros, and the first 20 bytes)
-AddrSyms == Accounts \cup {MODULE_ACC, "zero", "x1", "x2", "s8", "l33"}
+\* "p1": a valid address of 32 bytes whose first 20 bytes are a1's -- a different account (another string, another
+\* ledger entry), but padded into a 32-byte field it is indistinguishable from a1
+AddrSyms == Accounts \cup {MODULE_ACC, "zero", "x1", "x2", "s8", "l33", "p1"}
 ValidAddr(a) == a \in AddrSyms
 
 ---------------------------------------------------------------------------
@@ -42,7 +44,7 @@ ValidAddr(a) == a \in AddrSyms
 
 B(hi, lo)      == [n |-> 32, hi |-> hi, lo |-> lo]
 Zero32         == B("z", "zero")
-Pad(a)         == B("z", a)
+Pad(a)         == B("z", IF a = "p1" THEN "a1" ELSE a)
 ModulePadded   == Pad(MODULE_ACC)
 KTok(d)        == B("k", d)                 \* keccak256(<denom string d>)
 Bytes(n, fill) == [n |-> n, hi |-> "-", lo |-> fill]
